@@ -102,10 +102,11 @@ def parser(ctx, f, cfg):
     ok = len(calls) == 1
     prop = False
     if ok:
-        dest = calls[0][1]["dest"]["l"]
-        prop = any(callee_is(t2, "Try::branch") and op_place(t2["args"][0]) and op_place(t2["args"][0])["l"] == dest for _, t2 in b.calls())
-        # and the Break edge returns (from_residual) rather than unwrapping
-        prop = prop and any("from_residual" in callee_def(t2) for _, t2 in b.calls())
+        # a document the parser rejects becomes the function's Err: every Ok answer lies on the success edge of the test on
+        # from_str's result (`?`, match, if-let, is_ok / is_err alike)
+        oks = [bi for bi, blk in enumerate(b.blocks) if not blk["cleanup"] for s_ in blk["stmts"]
+               if s_["k"] == "assign" and s_["lhs"]["l"] == 0 and not s_["lhs"]["p"] and s_["rv"]["k"] == "agg" and s_["rv"].get("variant") == "Ok"]
+        prop = bool(oks) and all(ok_edge_dominates(f, b, x, "call:from_str") for x in oks)
     ps = PanicSites(f)
     sites = [s for s in ps.sites() if (s["body"].path == b.path or s["body"].root == b.path) and not ps.discharge_local(s)]
     ok = ok and prop and not sites
